@@ -74,3 +74,16 @@ REG.contract('C08', M, 'run_impl', params={'options': Obj, 'builddir': Str},
                            'environment': Obj, 'info_dir': Str},
              floor=6,
              note='meson configure: an accepted -D/-U is recorded in cmd_line.txt unconditionally and after validation; a rejected one leaves cmd_line.txt and coredata untouched')
+
+# ---- has the admissible set of an option changed? (decides whether an option-file edit replaces the stored option)
+IntO = Struct('UserIntegerOption', 'mesonbuild.options:UserIntegerOption', min_value=Opt(Int), max_value=Opt(Int))
+ComboO = Struct('UserComboOption', 'mesonbuild.options:UserComboOption', choices=List(Str))
+ArrO = Struct('UserStringArrayOption', 'mesonbuild.options:UserStringArrayOption', choices=Opt(List(Str)))
+StrO = Struct('UserStringOption', 'mesonbuild.options:UserStringOption')
+REG.contract('C08', O, 'choices_are_different', variant='integer', params={'a': IntO, 'b': IntO},
+             ensures=['result == (a.min_value != b.min_value or a.max_value != b.max_value)'], result=Bool, floor=1,
+             note='an integer option changed iff its lower OR its upper bound changed (None = unbounded)')
+REG.contract('C08', O, 'choices_are_different', variant='combo', params={'a': ComboO, 'b': ComboO},
+             ensures=['result == (not seq_eq_from(a.choices, b.choices, 0))'], result=Bool, floor=1, note='a combo option changed iff its choice list changed')
+REG.contract('C08', O, 'choices_are_different', variant='string', params={'a': StrO, 'b': StrO},
+             ensures=['result == False'], result=Bool, floor=1, note='options without an admissible set never count as changed')
